@@ -276,3 +276,36 @@ def run(tier):
            "samples": [{"config": r["cfg"], "datagrams": r["sent"], "probes_passed": r["probes"], "classes": r["labels"]} for r in results[:3]],
            "exhaustive": False, "datagram_classes": labels, "replies_seen": replies, "probes": probes, "servers": len(results), "source_endpoints": sum(r.get("sources", 0) for r in results)}
     return v.finish(cov, ["thread/descriptor exhaustion by thousands of simultaneous accepted transfers is outside the property (workers are cancelled)", "server-internal thread schedules are sampled, not controlled"])
+
+
+def replay(rec):
+    """re-sends the bisected datagram to a fresh server of the same configuration and probes it"""
+    r = rec["replay"]
+    fl, mode, rw = r["config"].split("/")
+    ctx = Ctx("C05", "quick", flavors=(fl,))
+    sb = ctx.sandbox("c05replay")
+    content = N.keyed_content("probe", 700)
+    write(os.path.join(sb["srv"], "probe.bin"), content)
+    srv = N.Server(ctx.bins[fl]["tftpd"], sb["srv"], single=(mode == "single"), read_only=(rw == "read-only"), logdir=sb["logs"]).start()
+    try:
+        if not r.get("culprit_hex"):
+            print("no single culprit recorded; batch:", r.get("batch_hex"))
+            return 2
+        s = N._sock(timeout=0.5)
+        s.sendto(bytes.fromhex(r["culprit_hex"]), srv.addr)
+        try:
+            buf, src = s.recvfrom(70000)
+            k, f = N.dec(buf)
+            if k == "OACK":
+                s.sendto(N.enc_ack(0), src)
+        except OSError:
+            pass
+        time.sleep(0.5)
+        ok, why = N.probe(srv, "probe.bin", content)
+        print(f"replayed [{r.get('culprit_label')}] on {r['config']}: probe ok={ok} {why}; exit status {srv.exit_status()}")
+        if not ok:
+            print(f"VIOLATION property=C05 replay={rec.get('_path')}")
+            return 1
+        return 0
+    finally:
+        srv.stop()
